@@ -520,6 +520,15 @@ var MergeFns = map[string]bool{}
 
 type opaqueFn struct{ sig *types.Signature }
 
+// opaqueZero is the result of an opaque (logging / metrics) call: the zero value, except that a function
+// result is a no-op function (callers invoke it, e.g. "defer metrics.Start()()").
+func opaqueZero(t types.Type) value {
+	if sig, ok := t.Underlying().(*types.Signature); ok {
+		return opaqueFn{sig}
+	}
+	return zero(t)
+}
+
 
 func call0(i *interpreter, caller *frame, callpos token.Pos, fn value, args []value) value {
 	switch fn := fn.(type) {
@@ -538,11 +547,11 @@ func call0(i *interpreter, caller *frame, callpos token.Pos, fn value, args []va
 		case 0:
 			return nil
 		case 1:
-			return zero(res.At(0).Type())
+			return opaqueZero(res.At(0).Type())
 		}
 		t := make(tuple, res.Len())
 		for k := range t {
-			t[k] = zero(res.At(k).Type())
+			t[k] = opaqueZero(res.At(k).Type())
 		}
 		return t
 	}
@@ -579,7 +588,12 @@ func callSSA(i *interpreter, caller *frame, callpos token.Pos, fn *ssa.Function,
 		defer func() {
 			if r := recover(); r != nil {
 				if _, ok := r.(pathEnd); !ok {
-					fmt.Fprintf(os.Stderr, "  in %s\n", fn)
+					pos := ""
+					if lastInstr != nil {
+						pos = fn.Prog.Fset.Position(lastInstr.Pos()).String() + " " + lastInstr.String()
+						lastInstr = nil
+					}
+					fmt.Fprintf(os.Stderr, "  in %s %s\n", fn, pos)
 				}
 				panic(r)
 			}
@@ -620,11 +634,11 @@ func callSSA(i *interpreter, caller *frame, callpos token.Pos, fn *ssa.Function,
 			case 0:
 				return nil
 			case 1:
-				return zero(res.At(0).Type())
+				return opaqueZero(res.At(0).Type())
 			}
 			t := make(tuple, res.Len())
 			for k := range t {
-				t[k] = zero(res.At(k).Type())
+				t[k] = opaqueZero(res.At(k).Type())
 			}
 			return t
 		}
@@ -695,6 +709,11 @@ func runFrame(fr *frame) {
 		if fr.i.mode&EnableTracing != 0 {
 			fmt.Fprintf(os.Stderr, "Panicking: %T %v.\n", fr.panic, fr.panic)
 		}
+		switch fr.panic.(type) {
+		case pathEnd, abortGoroutine:
+			// engine control flow: the path (or this goroutine) is over; the target's deferred calls do not run
+			panic(fr.panic)
+		}
 		fr.runDefers()
 		fr.block = fr.fn.Recover
 	}()
@@ -712,6 +731,9 @@ func runFrame(fr *frame) {
 				} else {
 					fmt.Fprintln(os.Stderr, "\t", instr)
 				}
+			}
+			if Trace {
+				lastInstr = instr
 			}
 			if visitInstr(fr, instr) == kReturn {
 				return
@@ -891,6 +913,8 @@ var Opaque = func(string) bool { return false }
 var OpaqueName = func(string) bool { return false }
 
 var Redirects = map[string]*ssa.Function{}
+
+var lastInstr ssa.Instruction
 
 var RepoPrefix = "github.com/bloxapp/ssv/"
 
